@@ -24,6 +24,13 @@ def write():
         if m is None or pid not in ids:
             continue
         claimed.add(pid)
+        m = dict(m)
+        for xp in sorted(glob.glob(os.path.join(VERIF, "props", pid.lower() + "_x_*.py"))):
+            xm = importlib.import_module("props." + os.path.basename(xp)[:-3])
+            add = getattr(xm, "MANIFEST_ADD", None)
+            if add:
+                m["text"] = m["text"] + " " + add.get("text", "")
+                m["note"] = m["note"] + " " + add.get("note", "")
         checks.append({
             "property_id": pid,
             "quick_cmd": "./check %s --tier quick" % pid,
